@@ -445,6 +445,11 @@ class QasmVisitor:
 
         source = statement.measure.qubit
         target = statement.target
+        if source is None or target is None:
+            raise_qasm3_error(
+                f"Measurement {statement} without a target bit is not supported",
+                span=statement.span,
+            )
         assert source and target
 
         # # TODO: handle in-function measurements
